@@ -10,7 +10,7 @@ OUT=/verif/target/cov
 mkdir -p $OUT/prof
 rm -f $OUT/prof/*.profraw
 cp /repo/Cargo.lock Cargo.lock
-CARGO_NET_OFFLINE=true CARGO_TARGET_DIR=$OUT RUSTFLAGS="-Cinstrument-coverage" cargo +nightly build --offline --profile chk 2>&1 | tail -1
+LLVM_PROFILE_FILE="$OUT/prof/build-%p.profraw" CARGO_NET_OFFLINE=true CARGO_TARGET_DIR=$OUT RUSTFLAGS="-Cinstrument-coverage" cargo +nightly build --offline --profile chk 2>&1 | tail -1
 for p in C01 C02 C03 C04 C05 C06 C07 C08 C09 C10 C11 C12 C13 C14 C15 C16 C17 C18 C19 C20; do
   LLVM_PROFILE_FILE="$OUT/prof/$p-%p.profraw" MQV_COVERAGE=1 $OUT/chk/mqv run $p $TIER --layer vg --out $OUT/$p.json --replays $OUT/replays 2>&1 | tail -1
 done
